@@ -89,6 +89,7 @@ Inductive reach : node -> node -> Prop :=
 (* dispatch-reachable: every proper ancestor on the path is absent from the initial destination *)
 Inductive dp : node -> Prop :=
 | dp_root : dp (c_root c)
+| dp_xroot x : In x (c_xroots c) -> dp x
 | dp_step p x : dp p -> has g d0 p = false -> In x (succ' g p) -> dp x.
 
 (* phases of a node whose content is in the destination *)
@@ -191,8 +192,9 @@ Ltac upd_cases m n :=
 
 Lemma dispatched_dp st n : Inv st -> dispatched g c st n = true -> dp n.
 Proof.
-  intros I H. unfold dispatched in H. apply orb_true_iff in H as [H|H].
+  intros I H. unfold dispatched in H. apply orb_true_iff in H as [H|H]; [apply orb_true_iff in H as [H|H]|].
   - apply is_root_eq in H. subst. constructor.
+  - apply dp_xroot. now apply memb_In.
   - apply existsb_exists in H as [p [_ Hp]]. apply andb_true_iff in Hp as [Hw Hm].
     apply memb_In in Hm.
     assert (Hph : ph st p = Waiting) by (destruct (ph st p); simpl in Hw; congruence).
@@ -486,7 +488,10 @@ Proof.
   intros H Hr. step_inv H; simp_st; try congruence.
   split.
   - destruct (ph st (c_root c)); simpl in *; congruence.
-  - intros n Hn. rewrite forallb_forall in H0. apply H0. apply in_seq. lia.
+  - intros n Hn.
+    match goal with Hx : forallb (fun n => is_idle_or_done (ph st n)) _ = true |- _ =>
+      rewrite forallb_forall in Hx; apply Hx end.
+    apply in_seq. lia.
 Qed.
 
 Lemma run_ret_true tr : forall st st', run g c st tr = Some st' ->
@@ -545,10 +550,11 @@ Proof.
   - eapply dr_step; eauto.
 Qed.
 
-Lemma dp_dr m : dp m -> has g d0 m = false -> dr (c_root c) m.
+Lemma dp_dr m : c_xroots c = [] -> dp m -> has g d0 m = false -> dr (c_root c) m.
 Proof.
-  intro H. induction H as [|p x Hp IH Hap Hx]; intro Ha.
+  intros Hx0 H. induction H as [|y Hy|p x Hp IH Hap Hx]; intro Ha.
   - now constructor.
+  - rewrite Hx0 in Hy. contradiction.
   - eapply dr_snoc; eauto.
 Qed.
 
@@ -575,12 +581,12 @@ Proof.
     specialize (rank_dec a x Hx). lia.
 Qed.
 
-Lemma copy_result_lemma tr st fuel : closed_nodes d0 -> mt_consistent ->
+Lemma copy_result_lemma tr st fuel : c_xroots c = [] -> closed_nodes d0 -> mt_consistent ->
   rank (c_root c) < fuel ->
   accepts g c d0 tr = Some st -> returned st = Some true ->
   forall n, has g (dst st) n = has g (copy_result g d0 fuel (c_root c)) n.
 Proof.
-  intros Hc Hmt Hf Ha Hr n.
+  intros Hx0 Hc Hmt Hf Ha Hr n.
   pose proof (closure_lemma tr st Hc Hmt Ha Hr) as CL.
   unfold accepts in Ha. pose proof (run_inv tr _ _ init_inv Ha) as I.
   unfold copy_result. rewrite has_app.
@@ -632,7 +638,7 @@ Qed.
 (* before the fix (c_tagmounted = false): a blob root that gets mounted is never tagged
    (OnMounted was not wrapped by prepareCopy) *)
 Definition g_blob : graph := mkGraph 1 (fun _ => []) (fun _ => false) (fun _ => false) (fun n => n).
-Definition c_mountroot : cfg := mkCfg 3 MTagger 0 true false [].
+Definition c_mountroot : cfg := mkCfg 3 MTagger 0 true false [] [].
 Definition tr_mountroot : list event :=
   [ExB 0; ExE 0 false; Cb CMountFrom 0; MtB 0; MtE 0 MMounted; Cb CMounted 0; Ret true].
 
@@ -661,7 +667,7 @@ Proof. reflexivity. Qed.
 Definition g_twin : graph :=
   mkGraph 3 (fun n => match n with 1 => [0] | _ => [] end) (fun _ => false)
           (fun n => Nat.eqb n 1) (fun n => match n with 0 => 0 | _ => 1 end).
-Definition c_twin : cfg := mkCfg 3 MGraph 1 false true [].
+Definition c_twin : cfg := mkCfg 3 MGraph 1 false true [] [].
 Definition tr_twin : list event := [ExB 1; ExE 1 true; Cb CSkip 1; Ret true].
 
 Lemma closure_refuted_without_mt_consistency :
@@ -681,7 +687,7 @@ Qed.
 Definition g_ex : graph :=
   mkGraph 4 (fun n => match n with 2 => [0; 1; 1] | 3 => [2; 0] | _ => [] end) (fun _ => false)
           (fun n => Nat.leb 2 n) (fun n => n).
-Definition c_ex : cfg := mkCfg 2 MTagger 3 false true [].
+Definition c_ex : cfg := mkCfg 2 MTagger 3 false true [] [].
 Definition tr_ex : list event :=
   [ExB 3; ExE 3 false; SFB 3; SFE 3; SFC 3; ExB 2; ExB 0; ExE 2 false; ExE 0 false; SFB 2;
    Cb CPre 0; SFE 2; SFB 0; SFC 2; SFE 0; PuB 0 false; ExB 1; ExE 1 true; PuE 0 false POk;
